@@ -29,6 +29,7 @@ def nodeName? : String → Option String
   | "dh_b" => some (repo ++ "/internal/math.MakeGAB")
   | "srp_a" => some (repo ++ "/telegram.GetInputCheckPassword")
   | "wire_nonce" => some "secret:nonce"
+  | "wire_dh_b" => some "secret:dh_b"
   | "new_client" => some (repo ++ ".NewMTProto")
   | _ => none
 
@@ -90,7 +91,34 @@ def preludeTokenOk (t : String) : Bool :=
 
 def preludeOk (s : String) : Bool := s == "-" || (s.splitOn ",").all preludeTokenOk
 
+/-- `secure_random` of account.password as the peer may send it: absent, or 0 … 4096 bytes all-zero (`z`), all-ones
+(`f`), pseudo-random (`r`) -/
+def secureRandomOk (t : String) : Bool :=
+  t == "none" ||
+  (match t.toList with
+   | c :: ds => (c == 'z' || c == 'f' || c == 'r') && !ds.isEmpty &&
+      (match (String.ofList ds).toNat? with
+       | some n => n ≤ 4096 && toString n == String.ofList ds
+       | none => false)
+   | [] => false)
+
+def scriptOk (s : String) : Bool :=
+  let ps := s.splitOn ","
+  ps.length ≤ 8 && ps.all fun p => p == "ok" || p == "retry" || p == "fail"
+
 def handle : List String → String
+  -- the secret drawn WITH values the peer chose: the graph has no values — a generator whose every path ends in the OS
+  -- source reads the full width whatever its other arguments are ("full" is also the line the Go side prints when
+  -- the draws are full-width, distinct, and every byte read enters the secret)
+  | ["c19.peer", "srp_a", sr, k] =>
+    if secureRandomOk sr && k.toNat?.isSome then verdict "srp_a" "full" "short" else "bad-op"
+  | ["c19.peer", "dh_b", gab, k] =>
+    if (gab.splitOn ".").head? == some "gab" && preludeTokenOk gab && k.toNat?.isSome then verdict "dh_b" "full" "short" else "bad-op"
+  -- the server answers set_client_DH_params with dh_gen_retry / dh_gen_fail / dh_gen_ok: every value that reaches
+  -- client_DH_inner_data.g_b is computed from calls that end in the OS source ("fresh" is also the line the Go side
+  -- prints when every g_b sent came from a fresh full-width draw, whatever the client did after the answer)
+  | ["c19.retry", script, k] =>
+    if scriptOk script && k.toNat?.isSome then verdict "wire_dh_b" "fresh" "short" else "bad-op"
   -- earlier calls with unusual parameters, then ordinary draws: a generator whose every path ends in crypto/rand
   -- and that keeps no state reads the full width from the OS source each time ("full" is also the line the Go
   -- side prints when the later draws are as wide and as fresh as the first)
